@@ -432,40 +432,44 @@ def run_unit(name, workdir, rlimit=None, seed=None, twins=True):
         contracted_by_name[c["name"]] = c
 
     # obligations from labels
-    label_lines = {}
-    body_text = "\n".join("\n".join(g.lines[a - 1:b]) for a, b in g.bodies.values())
-    for line, (lab, tags, clause) in g.labels.items():
-        # owner fn: the nearest fn whose region (sig start .. body end) contains this line
+    label_lines = {}     # line -> list of (oid, caller fnpath or None)
+    bodies_text = {c["fnpath"]: "\n".join(g.lines[g.bodies[c["fnpath"]][0] - 1:g.bodies[c["fnpath"]][1]]) for c in g.contracted}
+    for line, (lab, tags, clause) in sorted(g.labels.items()):
         owner = None
         for c in g.contracted:
             if c["region"][0] <= line <= c["region"][1]:
                 owner = c["fnpath"]
-        shim = False
-        if owner is None:
-            # walk back to the nearest fn line
-            for k in range(line, 0, -1):
-                mm = re.search(r"\bfn\s+(\w+)", g.lines[k - 1])
-                if mm and not g.lines[k - 1].strip().startswith("//"):
-                    owner = mm.group(1)
-                    break
-            shim = True
-            is_lemma = False
-            for k in range(line, 0, -1):
-                if re.search(r"\bfn\s+(\w+)", g.lines[k - 1]):
-                    is_lemma = "proof fn" in g.lines[k - 1] or "proof fn" in g.lines[max(0, k - 2)]
-                    break
-            if not is_lemma and owner and not re.search(r"(?<![\w])%s\s*(::<[^()]*>)?\s*\(" % re.escape(owner), body_text):
-                continue  # shim not used by any extracted body
-        oid = "%s/%s#%s" % (name, owner, lab)
-        if oid in res["obligations"]:
+        if owner is not None:
+            oid = "%s/%s#%s" % (name, owner, lab)
+            if oid not in res["obligations"]:
+                res["obligations"][oid] = dict(tags=tags, clause=clause, fn=owner, status="discharged", diag=[], lines=[], shim=False)
             res["obligations"][oid]["lines"].append(line)
+            label_lines.setdefault(line, []).append((oid, None))
             continue
-        res["obligations"][oid] = dict(tags=tags, clause=clause, fn=owner, status="discharged", diag=[], lines=[line], shim=shim)
-        label_lines[line] = oid
-    for line, (lab, tags, clause) in g.labels.items():
-        for oid, o in res["obligations"].items():
-            if line in o["lines"]:
-                label_lines[line] = oid
+        # label on hand-written code: a lemma (one obligation) or a shim precondition (one obligation per calling contracted fn)
+        shim_fn, is_lemma = None, False
+        for k in range(line, 0, -1):
+            mm = re.search(r"\bfn\s+(\w+)", g.lines[k - 1])
+            if mm and not g.lines[k - 1].strip().startswith("//"):
+                shim_fn = mm.group(1)
+                is_lemma = "proof fn" in g.lines[k - 1] and "external_body" not in g.lines[max(0, k - 2)]
+                break
+        if shim_fn is None:
+            continue
+        if is_lemma:
+            oid = "%s/%s#%s" % (name, shim_fn, lab)
+            if oid not in res["obligations"]:
+                res["obligations"][oid] = dict(tags=tags, clause=clause, fn=shim_fn, status="discharged", diag=[], lines=[], shim=True)
+            res["obligations"][oid]["lines"].append(line)
+            label_lines.setdefault(line, []).append((oid, None))
+            # a labelled requires of a proof fn is also checked at its call sites
+        callers = [fp for fp, bt in bodies_text.items() if re.search(r"(?<![\w])%s\s*(::<[^()]*>)?\s*\(" % re.escape(shim_fn), bt)]
+        for fp in callers:
+            oid = "%s/%s/%s#%s" % (name, fp, shim_fn, lab)
+            if oid not in res["obligations"]:
+                res["obligations"][oid] = dict(tags=tags, clause=clause, fn=fp, status="discharged", diag=[], lines=[], shim=True)
+            res["obligations"][oid]["lines"].append(line)
+            label_lines.setdefault(line, []).append((oid, fp))
     for c in g.contracted:
         res["obligations"]["%s/%s#safety" % (name, c["fnpath"])] = dict(
             tags=[], clause="implicit obligations of the body: arithmetic overflow, bounds, unwrap, unlabelled callee preconditions, termination",
@@ -521,11 +525,11 @@ def run_unit(name, workdir, rlimit=None, seed=None, twins=True):
 
     # map errors
     for e in verr:
-        hit = []
+        hit_cands = []
         for sp in e["spans"]:
             for ln in range(sp["line"], sp["line_end"] + 1):
                 if ln in label_lines:
-                    hit.append(label_lines[ln])
+                    hit_cands.append(label_lines[ln])
         prim = [sp for sp in e["spans"] if sp["primary"]]
         pl = prim[0]["line"] if prim else (e["spans"][0]["line"] if e["spans"] else None)
         reg = region_of(pl) if pl else None
@@ -539,6 +543,10 @@ def run_unit(name, workdir, rlimit=None, seed=None, twins=True):
             where = cby["fnpath"]
         elif reg:
             where = reg["name"]
+        hit = []
+        for cands in hit_cands:
+            pick = [oid for oid, caller in cands if caller is not None and caller == where] or [oid for oid, caller in cands if caller is None]
+            hit += pick
         if hit:
             for oid in set(hit):
                 o = res["obligations"][oid]
